@@ -1,0 +1,78 @@
+//go:build verif
+// +build verif
+
+package nutsdb
+
+import (
+	"sync"
+	"sync/atomic"
+)
+
+// Verification hooks (build tag "verif").
+//
+// VerifFSHook is called BEFORE every operation by which the library mutates
+// the database directory. op is one of "open" (O_CREATE open; off = requested
+// capacity or 0), "truncate" (off = new size), "write" (off, data), "sync",
+// "close", "remove". If it returns handled == true the real operation is
+// skipped and (n, err) is returned to the caller instead (fault injection).
+//
+// VerifYieldHook is called at named points between critical sections.
+type (
+	VerifFSHookFn    func(op, path string, off int64, b []byte) (handled bool, n int, err error)
+	VerifYieldHookFn func(point string)
+)
+
+var (
+	verifFSHook    atomic.Value // VerifFSHookFn
+	verifYieldHook atomic.Value // VerifYieldHookFn
+
+	verifMMapMu    sync.Mutex
+	verifMMapPaths = map[*byte]string{}
+)
+
+// VerifSetFSHook installs (or, with nil, removes) the file-mutation hook.
+func VerifSetFSHook(fn VerifFSHookFn) { verifFSHook.Store(fn) }
+
+// VerifSetYieldHook installs (or, with nil, removes) the yield hook.
+func VerifSetYieldHook(fn VerifYieldHookFn) { verifYieldHook.Store(fn) }
+
+func verifFS(op, path string, off int64, b []byte) (bool, int, error) {
+	if fn, _ := verifFSHook.Load().(VerifFSHookFn); fn != nil {
+		return fn(op, path, off, b)
+	}
+	return false, 0, nil
+}
+
+func verifYield(point string) {
+	if fn, _ := verifYieldHook.Load().(VerifYieldHookFn); fn != nil {
+		fn(point)
+	}
+}
+
+// MMapRWManager does not remember its path; the mapping's base address does.
+func verifTrackMMap(m []byte, path string) {
+	if len(m) == 0 {
+		return
+	}
+	verifMMapMu.Lock()
+	verifMMapPaths[&m[0]] = path
+	verifMMapMu.Unlock()
+}
+
+func verifMMapPath(m []byte) string {
+	if len(m) == 0 {
+		return ""
+	}
+	verifMMapMu.Lock()
+	defer verifMMapMu.Unlock()
+	return verifMMapPaths[&m[0]]
+}
+
+func verifUntrackMMap(m []byte) {
+	if len(m) == 0 {
+		return
+	}
+	verifMMapMu.Lock()
+	delete(verifMMapPaths, &m[0])
+	verifMMapMu.Unlock()
+}
